@@ -76,6 +76,9 @@ def reproduces(h, claim, values, symbolic_error=None):
         if claim == 'no_unexpected_exception':
             # the concrete run must fail with the same exception class as the symbolic path did
             same = symbolic_error is None or (rec.get('error') or '').split(':')[0] == symbolic_error.split(':')[0]
+            if symbolic_error and any(t in symbolic_error for t in ("'SymX'", "'SymInt'", "'SymBool'", 'symbolic real')) \
+                    and (rec.get('error') or '') != symbolic_error:
+                same = False      # the symbolic path failed because of a proxy limitation, not because of the code
             if rec['status'] == 'error' and same:
                 return True, rec, exact
             continue
@@ -88,6 +91,8 @@ def reproduces(h, claim, values, symbolic_error=None):
 
 def check(pid, tier, seed, only, workers, verbose, write_evidence=True):
     from . import explore as ex
+    import logging
+    logging.disable(logging.WARNING)
     t0 = time.time()
     mod = importlib.import_module('harness.' + pid)
     hs = [h for h in mod.HARNESSES if tier in h.tiers and (not only or h.name in only)]
